@@ -414,6 +414,10 @@ func (table *Table) Del(primaryKey []byte) error {
 	//copy row
 	delrow := *row
 	delrow.Ty = Del
+	if incache {
+		//cache 中是 Update: 数据库里保存的还是 old, 数据和索引要按 old 删除
+		delrow.Data = row.old
+	}
 	table.addRowCache(&delrow)
 	return nil
 }
